@@ -44,7 +44,7 @@ impl TraitHandler for DebugStructHandler {
 
         if type_attribute.named_field {
             builder_token_stream.extend(if let Some(name) = name {
-                quote!(let mut builder = f.debug_struct(stringify!(#name));)
+                quote!(let mut builder = f.debug_struct(::core::stringify!(#name));)
             } else {
                 super::common::create_debug_map_builder()
             });
@@ -87,17 +87,17 @@ impl TraitHandler for DebugStructHandler {
                         ));
 
                         builder_token_stream.extend(if name.is_some() {
-                            quote! (builder.field(stringify!(#key), &arg);)
+                            quote! (builder.field(::core::stringify!(#key), &arg);)
                         } else {
-                            quote! (builder.entry(&Educe__RawString(stringify!(#key)), &arg);)
+                            quote! (builder.entry(&Educe__RawString(::core::stringify!(#key)), &arg);)
                         });
                     } else {
                         debug_types.push(ty);
 
                         builder_token_stream.extend(if name.is_some() {
-                            quote! (builder.field(stringify!(#key), &&self.#field_name);)
+                            quote! (builder.field(::core::stringify!(#key), &&self.#field_name);)
                         } else {
-                            quote! (builder.entry(&Educe__RawString(stringify!(#key)), &&self.#field_name);)
+                            quote! (builder.entry(&Educe__RawString(::core::stringify!(#key)), &&self.#field_name);)
                         });
                     }
 
@@ -106,7 +106,7 @@ impl TraitHandler for DebugStructHandler {
             }
         } else {
             builder_token_stream
-                .extend(quote!(let mut builder = f.debug_tuple(stringify!(#name));));
+                .extend(quote!(let mut builder = f.debug_tuple(::core::stringify!(#name));));
 
             if let Data::Struct(data) = &ast.data {
                 for (index, field) in data.fields.iter().enumerate() {
